@@ -24,7 +24,8 @@ theorem C19_mode_rules : Jap.Gen.pathFlagMaxCount = [('c', 2)] ∧ Jap.Gen.pathF
 os-level probes they use: exactly the rows of `checks` (rows 1-4 under `c`, 5-7
 under `f`/`d`, then `r w x D F R W X`) -/
 theorem C19_init_tests : Jap.Gen.pathInitTests =
-    [("c?", ""), ("?", "count|isdir"), ("-", "isdir"), ("-", "access:W_OK"), ("d", "access:F_OK|isdir"), ("f", "access:F_OK|isfile"),
+    [("c?", ""), ("?", "count|isdir"), ("while", "access:F_OK"), ("-", "isdir"), ("-", "access:W_OK"),
+     ("d", "access:F_OK|isdir"), ("f", "access:F_OK|is_fifo|isfile"),
      ("df?", ""), ("-", "access:F_OK"), ("d", "isdir"), ("f", "S_ISFIFO|isfile|stat"),
      ("r", "access:R_OK"), ("w", "access:W_OK"), ("x", "access:X_OK"), ("D", "isdir"), ("F", "is_fifo|isfile"),
      ("R", "access:R_OK"), ("W", "access:W_OK"), ("X", "access:X_OK")] := by decide
@@ -67,66 +68,58 @@ theorem C19_checkMode_complete (s : List Char)
 
 /-! ## acceptance -/
 
-/- Full statement (FALSE of the current code, witnesses below):
-   theorem C19_accept_iff (m : Mode) (a : Facts) : a.wf → ValidMode m →
-       (checkPath m a = .ok ↔ ∀ fl, m.has fl = true → SatDoc m a fl)  -/
+/-- **C19_accept_iff** (full strength, since commits 5706b13 and f765cf2): for every
+well-formed snapshot of the file system and every mode `_check_mode` lets through,
+the constructor succeeds if and only if the file system satisfies every flag of the
+mode as the class docstring describes it (`SatDoc`) -/
+theorem C19_accept_iff (m : Mode) (a : Facts) (hw : a.wf) (hv : ValidMode m) :
+    checkPath m a = .ok ↔ ∀ fl, m.has fl = true → SatDoc m a fl :=
+  accept_doc m a hw hv
+
+/-- the same with the executable form of the right-hand side (what the driver prints) -/
+theorem C19_accept_iff_bool (m : Mode) (a : Facts) (hw : a.wf) (hv : ValidMode m) :
+    checkPath m a = .ok ↔ satAllDoc m a = true :=
+  (accept_doc m a hw hv).trans (satAllDoc_iff m a).symm
 
 /-- mode `fcc`, a path whose parent is a regular file in a writeable directory -/
 def witnessThroughFile : Mode × Facts :=
   (⟨true, false, false, false, false, false, false, false, false, false, false, false, 2⟩,
    { ex := false, statOk := false, isDir := false, isFile := false, isFifo := false, r := false, w := false, x := false,
-     parDir := false, parW := true, ancDir := true, ancW := true, nearDir := false, nearW := true })
+     parDir := false, parW := true, nearDir := false, nearW := true })
 
 /-- mode `fc`, an existing readable and writeable FIFO in a writeable directory -/
 def witnessFifo : Mode × Facts :=
   (⟨true, false, false, false, false, false, false, false, false, false, false, false, 1⟩,
    { ex := true, statOk := true, isDir := false, isFile := false, isFifo := true, r := true, w := true, x := false,
-     parDir := true, parW := true, ancDir := true, ancW := true, nearDir := true, nearW := true })
+     parDir := true, parW := true, nearDir := true, nearW := true })
 
-/-- the code accepts although flag `cc` is not satisfied … -/
-theorem C19_accept_iff_fails_through_file :
+/-- regression record of repaired defect F19c: the code before f765cf2 accepted although `cc`
+is not satisfied; the code now answers "parent directory does not exist" -/
+theorem C19_regression_through_file :
     witnessThroughFile.2.wf ∧ ValidMode witnessThroughFile.1 ∧
-    checkPath witnessThroughFile.1 witnessThroughFile.2 = .ok ∧
-    satAllDoc witnessThroughFile.1 witnessThroughFile.2 = false := by decide
+    satAllDoc witnessThroughFile.1 witnessThroughFile.2 = false ∧
+    checkPathPreFix witnessThroughFile.1 witnessThroughFile.2 true true = .ok ∧
+    checkPath witnessThroughFile.1 witnessThroughFile.2 = .pathError 1 := by decide
 
-/-- … and rejects (with "path already exists") although every flag is satisfied -/
-theorem C19_accept_iff_fails_fifo :
+/-- regression record of repaired defect F19f: the code before 5706b13 rejected ("path already
+exists") although every flag is satisfied; the code now accepts -/
+theorem C19_regression_fifo :
     witnessFifo.2.wf ∧ ValidMode witnessFifo.1 ∧
-    checkPath witnessFifo.1 witnessFifo.2 = .pathError 4 ∧
-    satAllDoc witnessFifo.1 witnessFifo.2 = true := by decide
+    satAllDoc witnessFifo.1 witnessFifo.2 = true ∧
+    checkPathPreFix witnessFifo.1 witnessFifo.2 true true = .pathError 4 ∧
+    checkPath witnessFifo.1 witnessFifo.2 = .ok := by decide
 
-/-- hence the full statement is refuted -/
-theorem C19_accept_iff_full_false :
-    ¬ (∀ (m : Mode) (a : Facts), a.wf → ValidMode m → (checkPath m a = .ok ↔ ∀ fl, m.has fl = true → SatDoc m a fl)) := by
-  intro h
-  obtain ⟨hw, hv, hok, hs⟩ := C19_accept_iff_fails_through_file
-  have := (satAllDoc_iff _ _).mpr ((h _ _ hw hv).mp hok)
-  rw [hs] at this
-  cases this
-
-/-- **C19_accept_iff (partial)**: away from the two classes of `Guard` (an existing
-FIFO under `fc`; `cc` below a non-directory) the constructor succeeds if and only
-if the file system satisfies every flag of the mode as the docstring describes it -/
-theorem C19_accept_iff_partial (m : Mode) (a : Facts) (hw : a.wf) (hv : ValidMode m) (hg : Guard m a) :
-    checkPath m a = .ok ↔ ∀ fl, m.has fl = true → SatDoc m a fl :=
-  (accept_code m a hw hv).trans (satCode_iff_satDoc m a hw hv hg)
-
-/-- without any guard: success ⇔ every flag satisfied in the code's reading (`SatCode`) -/
-theorem C19_accept_iff_code (m : Mode) (a : Facts) (hw : a.wf) (hv : ValidMode m) :
-    checkPath m a = .ok ↔ ∀ fl, m.has fl = true → SatCode m a fl :=
-  accept_code m a hw hv
-
-/-- the guard is satisfiable by a non-trivial state: mode `fcc`, missing file two levels below a writeable directory -/
-example : ∃ m a, a.wf ∧ ValidMode m ∧ Guard m a ∧ m.c = 2 ∧ a.parDir = false ∧ checkPath m a = .ok :=
+/-- non-vacuity: mode `fcc`, missing file two levels below a writeable directory, is accepted … -/
+example : ∃ m a, a.wf ∧ ValidMode m ∧ m.c = 2 ∧ a.parDir = false ∧ checkPath m a = .ok :=
   ⟨⟨true, false, false, false, false, false, false, false, false, false, false, false, 2⟩,
    { ex := false, statOk := false, isDir := false, isFile := false, isFifo := false, r := false, w := false, x := false,
-     parDir := false, parW := false, ancDir := true, ancW := true, nearDir := true, nearW := true }, by decide⟩
+     parDir := false, parW := false, nearDir := true, nearW := true }, by decide⟩
 
-/-- … and by a rejecting one: mode `frX` on an executable file -/
-example : ∃ m a, a.wf ∧ ValidMode m ∧ Guard m a ∧ checkPath m a = .pathError 15 :=
+/-- … and mode `frX` on an executable file is rejected by the last test -/
+example : ∃ m a, a.wf ∧ ValidMode m ∧ checkPath m a = .pathError 15 :=
   ⟨⟨true, false, true, false, false, false, false, false, false, true, false, false, 0⟩,
    { ex := true, statOk := true, isDir := false, isFile := true, isFifo := false, r := true, w := true, x := true,
-     parDir := true, parW := true, ancDir := true, ancW := true, nearDir := true, nearW := true }, by decide⟩
+     parDir := true, parW := true, nearDir := true, nearW := true }, by decide⟩
 
 /-- every rejection is a `PathError` raised by one of the fifteen `raise` statements:
 no `OSError` escapes (defect 16 is repaired: `is_fifo` guards the `os.stat` of flag `F`,
